@@ -4,7 +4,8 @@ Used by C01, C02, C03, C09.
 AST (python tuples)
   expr: ('lit', ity, int) | ('bool', b) | ('var', x) | ('bin', op, a, b) | ('un', op, a) | ('cast', a, ity) | ('call', f, [args])
   stmt: ('let', x, ty, e, const?) | ('assign', x, e) | ('cassign', x, op, e) | ('inc', x, +1|-1)
-        | ('if', c, blockA, blockB) | ('while', c, block) | ('break',) | ('continue',) | ('return', e|None)
+        | ('if', c, blockA, blockB) | ('while', c, block) | ('for', x, ity, lo, hi, block) | ('match', e, ity, [(int, block)], default_block|None)
+        | ('break',) | ('continue',) | ('return', e|None)
         | ('print', [es]) | ('expr', e) | ('block', block)
   block: list of stmt.  fn: dict(params=[(x, ty)], ret=ty, body=block).  prog: list of fn, last is main.
 """
@@ -66,6 +67,15 @@ def r_stmt(s, ind):
         return out + ["%s}" % p]
     if k == "while":
         return ["%swhile %s {" % (p, r_expr(s[1]))] + r_block(s[2], ind + 1) + ["%s}" % p]
+    if k == "for":
+        return ["%sfor v%d in %s..%s {" % (p, s[1], r_expr(s[3]), r_expr(s[4]))] + r_block(s[5], ind + 1) + ["%s}" % p]
+    if k == "match":
+        out = ["%smatch %s {" % (p, r_expr(s[1]))]
+        for v, b in s[3]:
+            out += ["%s    %s => {" % (p, "(%d)" % v if v < 0 else str(v))] + r_block(b, ind + 2) + ["%s    }" % p]
+        if s[4] is not None:
+            out += ["%s    _ => {" % p] + r_block(s[4], ind + 2) + ["%s    }" % p]
+        return out + ["%s}" % p]
     if k == "break": return [p + "break;"]
     if k == "continue": return [p + "continue;"]
     if k == "return": return [p + ("return;" if s[1] is None else "return %s;" % r_expr(s[1]))]
@@ -105,6 +115,8 @@ def c_expr(e, types=None):
     if k == "call": return "(ECall %d [%s])" % (e[1], "; ".join(c_expr(a) for a in e[2]))
     raise ValueError(e)
 
+_match_tmp = 0
+
 def c_block(b):
     if not b: return "SSkip"
     if len(b) == 1: return c_stmt(b[0])
@@ -118,6 +130,16 @@ def c_stmt(s):
     if k == "inc": return "(SAssign %d (EBin %s (EVar %d) (ELit %s 1%%Z)))" % (s[1], "Add" if s[2] > 0 else "Sub", s[1], c_ity(s[3]))
     if k == "if": return "(SIf %s %s %s)" % (c_expr(s[1]), c_block(s[2]), c_block(s[3]))
     if k == "while": return "(SWhile %s %s)" % (c_expr(s[1]), c_block(s[2]))
+    if k == "for": return "(SFor %d %s %s %s %s)" % (s[1], c_ity(s[2]), c_expr(s[3]), c_expr(s[4]), c_block(s[5]))
+    if k == "match":
+        # desugared in the reference: { const tmp = e; if tmp == v1 {a1} else if tmp == v2 {a2} ... else {default} }
+        global _match_tmp
+        _match_tmp += 1
+        tmp = 100000 + _match_tmp
+        chain = c_block(s[4]) if s[4] is not None else "SSkip"
+        for v, b in reversed(s[3]):
+            chain = "(SIf (EBin Eq (EVar %d) (ELit %s (%d)%%Z)) %s %s)" % (tmp, c_ity(s[2]), v, c_block(b), chain)
+        return "(SBlock (SSeq (SLet %d (TInt %s) %s) %s))" % (tmp, c_ity(s[2]), c_expr(s[1]), chain)
     if k == "break": return "SBreak"
     if k == "continue": return "SContinue"
     if k == "return": return "(SReturn None)" if s[1] is None else "(SReturn (Some %s))" % c_expr(s[1])
@@ -170,6 +192,7 @@ def always_exits(s):
     if k in ("break", "continue", "return"): return True
     if k == "if": return bool(s[3]) and block_exits(s[2]) and block_exits(s[3])
     if k == "block": return block_exits(s[1])
+    if k == "match": return s[4] is not None and block_exits(s[4]) and all(block_exits(b) for _, b in s[3])
     return False
 
 def block_exits(b):
@@ -187,7 +210,7 @@ class Gen:
         self.fns = []      # signatures of already generated functions: (params types, ret, recursive?)
         self.budget = 0
         self.features = {}
-        self.gate_eager_logic = True      # open finding F-LOGIC-EAGER: && / || evaluate their right operand unconditionally
+        self.gate_eager_logic = False     # (was a gate for F-LOGIC-EAGER, repaired by 31686fd)
         self.gate_self_operand = False    # (was a gate for F-QBE-SELF-OPERAND, repaired by 340ec5d)
 
     def feat(self, k):
@@ -241,7 +264,7 @@ class Gen:
             a = self.int_expr(t, env, d - 1, nonlit=True)
             dv = r.choice([1, 2, 3, 5, 7, 10, 16, 100]) if tmax(t) >= 100 else r.choice([1, 2, 3, 5, 7, 10])
             if signed(t) and r.random() < 0.3:
-                dv = -r.choice([2, 3, 5, 7])
+                dv = -r.choice([2, 3, 5, 7] + ([1, 1] if BITS[t] < 32 else []))
             return ("bin", op, a, ("lit", t, dv))
         # at least one operand is not a literal (literal-only expressions are folded as untyped constants)
         for _ in range(8):
@@ -330,7 +353,7 @@ class Gen:
         choices = ["let"] * 4 + ["print"] * 3
         if assignable: choices += ["assign"] * 3 + ["cassign"] * 2 + ["inc"]
         if d > 0 and self.budget > 3:
-            choices += ["if"] * 3 + ["while"] * 2 + ["block"]
+            choices += ["if"] * 3 + ["while"] * 2 + ["block"] + ["for"] * 2 + ["match"] * 2
         if inloop and r.random() < 0.15: choices += ["break", "continue"]
         if any(f[1] == "void" for f in self.fns): choices += ["callstmt"]
         if ret is not None and d < self.max_depth and r.random() < 0.12: choices += ["return"] * 2
@@ -389,6 +412,29 @@ class Gen:
             if r.random() < 0.3:
                 cond = ("bin", "&&", cond, self.bool_expr(env2, 1, nonlit=True))
             return ("block", [("let", i, t, ("lit", t, 0), False), ("while", cond, body)])
+        if c == "for":
+            # typed bounds held in locals (a range over bare literals is not compiled by the native back end)
+            t = r.choice([t for t in self.itys if t not in ("u8", "i8")] or self.itys)
+            vlo, vhi, x = self.fresh(), self.fresh(), self.fresh()
+            lo = r.randint(-2, 3) if signed(t) else r.randint(0, 3)
+            n = r.randint(0, 4)
+            env2 = env + [{vlo: (t, True), vhi: (t, True)}]
+            env3 = env2 + [{x: (t, True)}]           # the loop variable is immutable
+            body = self.block(env3, d - 1, True, ret, r.randint(1, 4), protected | {x, vlo, vhi})
+            return ("block", [("let", vlo, t, ("lit", t, lo), True), ("let", vhi, t, ("lit", t, lo + n), True),
+                              ("for", x, t, ("var", vlo), ("var", vhi), body)])
+        if c == "match":
+            t = r.choice(self.itys)
+            e = self.int_expr(t, env, r.randint(0, 2), nonlit=True)
+            if r.random() < 0.6:
+                # make hits likely: scrutinee reduced to a small range
+                e = ("bin", "%", e, ("lit", t, 4))
+                vals = r.sample([0, 1, 2, 3] + ([-1, -2, -3] if signed(t) else []), r.randint(1, 3))
+            else:
+                vals = list({self.lit(t)[2] for _ in range(r.randint(1, 3))})
+            arms = [(v, self.block(env, d - 1, inloop, ret, r.randint(1, 3), protected)) for v in vals]
+            default = self.block(env, d - 1, inloop, ret, r.randint(1, 3), protected) if r.random() < 0.7 else None
+            return ("match", e, t, arms, default)
         if c == "break": return ("break",)
         if c == "continue": return ("continue",)
         if c == "callstmt":
@@ -474,6 +520,10 @@ def _paths(block, prefix=()):
             out += _paths(s[2], prefix + (i, 2))
         elif s[0] == "block":
             out += _paths(s[1], prefix + (i, 1))
+        elif s[0] == "for":
+            out += _paths(s[5], prefix + (i, 5))
+        elif s[0] == "match" and s[4] is not None:
+            out += _paths(s[4], prefix + (i, 4))
     return out
 
 def _remove(block, path):
@@ -491,6 +541,7 @@ def _hoist(block, path):
         s = block[i]
         if s[0] in ("if", "while"): inner = s[2]
         elif s[0] == "block": inner = s[1]
+        elif s[0] == "match" and s[4] is not None: inner = s[4]
         else: return None
         return block[:i] + list(inner) + block[i + 1:]
     s = list(block[i])
